@@ -462,6 +462,9 @@ structure RM where
   prevSize : Int := 0
   lastOp : List String := []
   infl : List (Nat × Int) := []     -- reads of this life that are not done yet: index ↦ recorded size
+  prevWi : Nat := 0
+  nOffers : Nat := 0
+  refused : List Nat := []          -- ids of the requests whose Offer did not return nil
   fails : List String := []
 
 structure RD where
@@ -499,17 +502,24 @@ def RM.onObs (m : RM) (toks : List String) : RM :=
       let at_ := " after op " ++ "_".intercalate m.lastOp
       let nQ := q.length
       let sumQ := q.foldl (fun a x => a + R.sizeOf c x.2) (0 : Int)
+      let wi := ((Check.kvOf rest "wi").bind String.toNat?).getD 0
       let m := match m.lastOp with
         | ["offer", n] =>
+          let id := m.nOffers
+          let m := { m with nOffers := m.nOffers + 1, refused := if ret == "ok" then m.refused else m.refused ++ [id] }
+          let m := m.fail (!(R.refusedClause (ret == "ok") m.prevWi wi))
+            s!"sig=C02/pqsize/refused-offer-was-stored request={id} Offer returned {ret}, write index {m.prevWi} -> {wi}"
           match n.toNat? with
           | some n => m.fail (!(R.refusalClause m.cap m.prevSize (R.sizeOf c n) (ret == "full")))
               s!"sig=C02/pqsize/refusal-not-exact size-before={m.prevSize} request-size={R.sizeOf c n} cap={m.cap} got {ret}"
           | none => m
         | ["read"] =>
           match ret.splitOn ":" with
-          | [i, _, el] => match i.toNat?, el.toInt? with
-            | some i, some el => { m with infl := m.infl ++ [(i, el)] }
-            | _, _ => m.fail true s!"sig=C02/harness/unparsable-pqsize-read {ret}"
+          | [i, id, el] => match i.toNat?, id.toNat?, el.toInt? with
+            | some i, some id, some el =>
+              let m := m.fail (m.refused.contains id) s!"sig=C02/pqsize/refused-request-handed-over request={id} index={i}"
+              { m with infl := m.infl ++ [(i, el)] }
+            | _, _, _ => m.fail true s!"sig=C02/harness/unparsable-pqsize-read {ret}"
           | _ => m
         | ["done", i, _] =>
           match i.toNat? with
@@ -528,7 +538,7 @@ def RM.onObs (m : RM) (toks : List String) : RM :=
         s!"sig=C02/pqsize/size-out-of-bounds-in-fresh-life size={size} cap={m.cap} unfinished-sum={sumQ + sumF}{at_}"
       let m := m.fail (!(R.anyClause size sumF nQ))
         s!"sig=C02/pqsize/size-accounting size={size} in-flight-sum={sumF} queued={nQ}{at_}"
-      { m with prevSize := size }
+      { m with prevSize := size, prevWi := wi }
     | _, _, _ => m.fail true "sig=C02/harness/unparsable-pqsize-obs"
   | _ => m
 
@@ -556,6 +566,7 @@ def pqsizeHandler : Handler RD where
         | none => (d, ["obs bad-step"])
       | none => (d, ["obs bad-op"])
     | ["shutdown"] => let d' := { d with s := R.shutdown d.c d.s }; (d', [d'.obs "-"])
+    | ["failsi", v] => let d' := { d with s := { d.s with siFails := v == "1" } }; (d', [d'.obs "-"])
     | "restart" :: rest =>
       match (Check.kvOf rest "cap").bind String.toInt?, Check.kvOf rest "req" with
       | some cap, some rq =>
